@@ -276,6 +276,19 @@ func (c *checkSchema) ensureShortcutKeysAreValid(node *ischema.ObjectNode) error
 }
 
 func actualRootType(s, root *ischema.ISchema) json.Type {
+	return actualRootTypeOf(s, root, make(map[*ischema.ISchema]struct{}, 4))
+}
+
+// actualRootTypeOf does the work of actualRootType; seen are the types on the way
+// to s: a choice of types that names itself (@a = "@a | @b") has no json type of
+// its own.
+func actualRootTypeOf(s, root *ischema.ISchema, seen map[*ischema.ISchema]struct{}) json.Type {
+	if _, ok := seen[s]; ok {
+		return json.TypeMixed
+	}
+	seen[s] = struct{}{}
+	defer delete(seen, s)
+
 	t := s.RootNode().Type()
 	if t != json.TypeMixed {
 		return t
@@ -290,7 +303,7 @@ func actualRootType(s, root *ischema.ISchema) json.Type {
 			if err != nil {
 				return json.TypeMixed
 			}
-			tt = actualRootType(ss, root)
+			tt = actualRootTypeOf(ss, root, seen)
 			types[tt] = struct{}{}
 		}
 		if len(types) == 1 { // all USER TYPES (example: @aaa | @bbb) have the same type (example: string)
